@@ -957,11 +957,24 @@ fn run_history(args: &Args, hist: u64, seed: u64, n_ops: u64, every: u64, emptyc
         let mk = |i: u64| format!("10.{}.{}.0/24 => 64512", i % 4, 8 * i);
         let first: Vec<String> = (0..7).map(mk).collect();
         let more: Vec<String> = (7..12).map(mk).collect();
+        let x2 = "10.2.96.0/24 => 64512".to_string();
+        let s1 = "10.1.104.0/24 => 64512".to_string();
+        let m1 = "10.0.64.0/24-26 => 64512".to_string();
         enum P { Roas(Vec<String>, Vec<String>), Ent(u32), Aspa(&'static str), Router(u32), Check(&'static str) }
         let script: Vec<(&str, P)> = vec![
             ("prelude_add", P::Roas(first.clone(), vec![])),                                  // 7 > 5 (and > 2): start aggregating
             ("prelude_remove", P::Roas(vec![], first[1..].to_vec())),                         // 1 left: stop aggregating under 3/5
             ("prelude_add", P::Roas(more.clone(), vec![])),                                   // 6: aggregate again
+            // while aggregated (AS64512.roa), changes that keep the NUMBER of authorisations of the origin:
+            ("prelude_add", P::Roas(vec![x2.clone()], vec![])),                               // atoms 0..3 now carry 2, 1, 2, 2 prefixes
+            ("prelude_swap_prefix", P::Roas(vec![s1.clone()], vec![more[2].clone()])),        // one delta: 10.1.72.0/24 out, 10.1.104.0/24 in
+            ("prelude_check", P::Check("after swapping one prefix of an aggregated origin")),
+            ("prelude_change_maxlen", P::Roas(vec![m1.clone()], vec![more[1].clone()])),      // one delta: 10.0.64.0/24 becomes 10.0.64.0/24-26
+            ("prelude_check", P::Check("after changing only a max length in an aggregated ROA")),
+            ("prelude_shrink", P::Ent(0x07)),                                                 // b loses atom 3 (two prefixes)
+            ("prelude_swap_atoms", P::Ent(0x0b)),                                             // one certificate: atom 2 (two prefixes) out, atom 3 (two prefixes) in
+            ("prelude_check", P::Check("after a certificate that swaps two covered prefixes for two others")),
+            ("prelude_regrow", P::Ent(0x0f)),
             ("prelude_aspa", P::Aspa("AS64514 => AS64600, AS64601")),
             ("prelude_aspa", P::Aspa("AS64512 => AS64600")),
             ("prelude_router_key", P::Router(64514)),
@@ -970,7 +983,7 @@ fn run_history(args: &Args, hist: u64, seed: u64, n_ops: u64, every: u64, emptyc
             ("prelude_check", P::Check("after losing atoms 2 and 3")),
             ("prelude_regrow", P::Ent(0x0f)),                                                 // and gets them back
             ("prelude_check", P::Check("after regaining atoms 2 and 3")),
-            ("prelude_remove_all", P::Roas(vec![], { let mut v = vec![first[0].clone()]; v.extend(more.iter().cloned()); v })),   // total 0 while aggregating
+            ("prelude_remove_all", P::Roas(vec![], vec![first[0].clone(), more[0].clone(), more[3].clone(), more[4].clone(), x2.clone(), s1.clone(), m1.clone()])),   // total 0 while aggregating
             ("prelude_add", P::Roas(vec![first[0].clone(), first[1].clone()], vec![])),       // from nothing: simple again
         ];
         for (name, step) in script {
